@@ -163,7 +163,7 @@ def write_replay(pid, case, sig, violation, extra=None):
     from .terms import enc
     from .common import digest
 
-    d = os.path.join(VERIF, "replays", pid)
+    d = os.path.join(os.environ.get("VERIF_REPLAY_DIR") or os.path.join(VERIF, "replays"), pid)
     os.makedirs(d, exist_ok=True)
     name = f"{digest(sig, 10)}-{case.get('seed', 0)}.json"
     path = os.path.join(d, name)
@@ -418,8 +418,9 @@ def check(pid, tier, verif_seed, runs=None, workers=None, cap_s=None, minimise_s
         "wall_s": round(wall, 2),
         "violations": len(new_violation_lines) + len(regress_lines),
     }
-    os.makedirs(os.path.join(VERIF, "evidence"), exist_ok=True)
-    with open(os.path.join(VERIF, "evidence", f"{pid}.json"), "w") as fh:
+    evdir = os.environ.get("VERIF_EVIDENCE_DIR") or os.path.join(VERIF, "evidence")
+    os.makedirs(evdir, exist_ok=True)
+    with open(os.path.join(evdir, f"{pid}.json"), "w") as fh:
         json.dump(evidence, fh, indent=1, sort_keys=True)
 
     print(
